@@ -116,7 +116,10 @@ CLAIMS = {
              "grammar, trims and left recursion: termination, xor, success ONLY IF a derivation spans the input). The IF half with "
              "trims is false under the loose reading of RightTrim (c04s_trim_iff_false: RightTrim does not move a result that "
              "comes with an error, e.g. over an Optional that did not match - the library's computed parses simply do not include "
-             "it; no property quantifies over RightTrim of a non-token); outside these fragments the harness's derivation oracle "
+             "it; no property quantifies over RightTrim of a non-token); with the EXACT trim meaning DerivesW the full iff holds "
+             "(Props/C04W.lean: c04_sentence_sound_w through the Sentence wrapper with the returned trees, c04_sentence_iff_trim, "
+             "_answered, _any_engine; instance c04w_arith_iff: the arithmetic grammar on EVERY input, any offset, any engine); "
+             "outside these fragments the harness's derivation oracle "
              "decides the IF direction per case (known finding D9: Name/Single over Optional).",
         note="c04_sentence_sound needs Scope (no trims, TermGood terminals); c04_xor needs nothing.",
         technique="Lean 4 theorems over the parse/evaluate model (case analysis of Parse, derivation inversion for Sentence, induction for the evaluator) + oracle on the real Parse/Evaluate under recover + differential correspondence"),
@@ -227,8 +230,12 @@ CLAIMS = {
              "(c10_parse_reports_ws); and the transparency theorem for token sequences of ANY length with any admissible whitespace in "
              "every gap (c10_transparent, c10_transparent_shape: same tokens, values and own positions whatever the whitespace). The "
              "proof attempt for the RightTrim-outermost nesting exposed defect D10 (fixed in /repo). Tied to text/trim.go and "
-             "text/reader.go by a differential run over token sequences x whitespace strings x mode assignments x nestings and by "
-             "regenerated whitespace byte sets and condition lists.",
+             "text/reader.go by a differential run over token sequences x whitespace strings x mode assignments x nestings, by "
+             "regenerated whitespace byte sets and condition lists, AND BY TRANSLATION (Props/C10P.lean): Reader.SkipWhitespaces, "
+             "IsEOF, Remaining, Pos and File.setLines / Pos / Position are translated from /repo's current source into Lean on "
+             "every run and proved equal to the model's skipWhitespaces / isEOF / remaining / lines / position for all inputs "
+             "(c10_translated_functions, c10_translated_file), so that c10p_skipWhitespaces states the run-length and the verdict "
+             "of every mode about the translated code itself.",
         note="Tokens are abstract terminals (hypotheses on Terminal.parse); c10_transparent is stated for single-byte rune tokens. "
              "LeftTrim over RightTrim over an EMPTY token (a regexp matching the empty string) with both modes rejecting reports the "
              "right mode's error (documented as an example; no built-in token is empty).",
@@ -317,8 +324,21 @@ CLAIMS = {
         text="Machine-checked proof (Lean 4) that the slice-heap/map-heap model of IntSet/IntMap refines the plain set/map "
              "specification for every history and every append growth policy (c15_refine, c15_sorted, c15_grow_irrelevant), tied to "
              "the code by a differential run of random and exhaustive-small histories on the real data package with every pool value "
-             "re-read after every operation, and by regenerated source text facts.",
-        note="sort.SearchInts, append/copy/make and Go maps are re-implemented from their documentation.",
+             "re-read after every operation, by regenerated source text facts, AND BY TRANSLATION: on every run the whole data "
+             "package (IntSet Len / insertValue / Insert / Union / Each, NewIntSet, NewIntMap, IntMap clone / Get / Inc / Filter) "
+             "is translated statement by statement from /repo's current source into Lean (factgen -out-prog -> "
+             "Generated/FactsProg.lean: loops as fuelled recursive functions, slices and maps on an explicit heap, out-of-range "
+             "index = panic, never a default) and Props/C15P.lean proves the hand-written model EQUAL to the translated functions "
+             "for all inputs (c15_translated_functions; Insert / insertValue under sortedness, the others unconditionally), with "
+             "the set/map laws restated about the translated code itself: Insert never mutates its receiver (c15p_insert: Frame), "
+             "Union reads as the merge, commutative and idempotent on sorted operands (c15p_union, c15p_union_comm_idem), Inc / "
+             "Filter leave the receiver unchanged (c15p_inc, c15p_filter). 11 semantic edits of the package tried in scratch copies "
+             "(< to <=, a dropped n2++, the aliasing defect D7, Inc from 0, ...) each break a tie theorem; equivalent rewrites of "
+             "conditions, renamings, reordered branches do not.",
+        note="sort.SearchInts (least index with an element >= x), append (in place when capacity allows, growth policy a parameter), copy "
+             "(memmove), make, and Go maps (ranged in ascending key order) are given their meaning by the hand-written prelude "
+             "Generated/ProgPrelude.lean - trusted; so is the translator (harness/cmd/factgen/progfacts.go). A capacity-only change "
+             "(make(..., len+2)) breaks the exact heap equality although it is observationally harmless.",
         technique="Lean 4 refinement proof (invariant over operation histories on a slice heap) + differential correspondence + regenerated facts"),
     "C17": dict(
         text="For the property's quantifier - the six named families, one grammar each, at EVERY input length (not only up to several "
